@@ -209,6 +209,20 @@ def run(case, sim):
             elif kind == "time":
                 dt = abs(spec.get("dt", 0))
                 exp = "valid" if dt < 598 else ("free" if dt <= 602 else "invalid")
+            # the window is judged against the relay's clock while it handled the command: the wall
+            # clock may have jumped between the client signing and the relay checking
+            try:
+                created = m[1]["created_at"]
+                ages = [w0 - created for w0 in (fr.get("wall_deliver"), fr.get("wall_done")) if w0 is not None]
+                if kind in ("valid", "time", "extra", "dup-relay") and ages:
+                    if all(abs(a) < 598 for a in ages):
+                        exp = "valid"
+                    elif all(abs(a) > 602 for a in ages):
+                        exp = "invalid"
+                    else:
+                        exp = "free"
+            except Exception:
+                exp = "free"
             if kind == "chal-other":
                 # the other connection's challenge is only "foreign" if it differs from ours
                 oc = chals.get(int(spec["challenge"][6:]))
@@ -218,6 +232,11 @@ def run(case, sim):
             ev_fr = frames[i + 1] if i + 1 < len(frames) else None
             rq_fr = frames[i + 2] if i + 2 < len(frames) else None
             i += 1
+            # (after shrinking the probes may be gone: judge only AUTH, EVENT, REQ triples)
+            if (ev_fr is not None and (parse(ev_fr["text"]) or [None])[0] != "EVENT") or \
+                    (rq_fr is not None and (parse(rq_fr["text"]) or [None])[0] != "REQ") or rq_fr is None:
+                unknown = True       # cannot observe the outcome of this attempt
+                continue
             if closed_at is not None and (ev_fr is None or ev_fr["t_deliver"] > closed_at or fr["t_done"] is None):
                 outcomes.append((kind, "closed"))
                 break
